@@ -115,6 +115,21 @@ func Range[K comparable, V any](m map[K]V, site string) Seq[K, V] {
 	return Seq[K, V]{M: m, Keys: Keys(m, site)}
 }
 
+// RangeK / RangeKV start a visit and also hand back zero values, so that the rewritten
+// loop can declare its key / value variables ONCE in the loop header - like the `range`
+// clause it replaces under the per-loop variable semantics of the module's Go version
+// (a closure or pointer that captures the loop variable behaves exactly as before).
+func RangeK[K comparable, V any](m map[K]V, site string) (int, Seq[K, V], K) {
+	var k K
+	return 0, Range(m, site), k
+}
+
+func RangeKV[K comparable, V any](m map[K]V, site string) (int, Seq[K, V], K, V) {
+	var k K
+	var v V
+	return 0, Range(m, site), k, v
+}
+
 // Keys returns the keys of m in the order the simulator chose for this visit.
 // Every order it can return is an order the Go runtime may produce.
 func Keys[K comparable, V any](m map[K]V, site string) []K {
